@@ -1,4 +1,221 @@
-'''Shared scheduler/farm model plumbing (C01-C05, C11, C15 build half, C20 defer).'''
+'''Shared plumbing for the scheduler/farm model (C01-C05, C11, C15 build half):
+rendering of engine graphs and events as Gallina terms, evaluation of
+coq/Model/Sched.v on the same event lists the real code ran, comparison of the
+canonical observations, and the per-property oracles evaluated on the
+IMPLEMENTATION's observations.'''
+import json
+
+from vlib import core
+
+FAC = {0: 'Task', 1: 'Analysis', 2: 'Regress'}
+OUTC = {3: 'Success', 1: 'Failure', 6: 'Invalid'}
+
+FINGERPRINT = [
+    ('Python/dawgie/pl/schedule.py',
+     ['organize', 'next_job_batch', 'complete', 'purge', 'update', 'build', 'find', '_diff',
+      '_is_asp', '_priors', 'view_todo', 'view_doing']),
+    ('Python/dawgie/pl/farm.py',
+     ['Hand._res', 'Hand._reg', 'Hand._process', 'Hand.connectionLost', 'Hand.do', 'Hand.notify',
+      'dispatch', '_put', 'rerunid', 'something_to_do', 'notify_all', '_cluster_sort',
+      '_workers_sort', 'crew']),
+    ('Python/dawgie/pl/dag.py', ['Node.locate', 'Node.iter', 'Node.add']),
+    ('Python/dawgie/util/fifo.py', ['Unique']),
+]
+
+
+def nl(xs):
+    return '[' + '; '.join(str(int(x)) for x in xs) + ']'
+
+
+def zopt(r):
+    return 'None' if r is None else '(Some (%d)%%Z)' % r
+
+
+def b(x):
+    return 'true' if x else 'false'
+
+
+def cfg_term(g):
+    nodes = '; '.join(
+        '{| kids := %s; anc := %s; gfac := %s; lvl := %d; ins := %s |}'
+        % (nl(n['kids']), nl(n['anc']), FAC[n['fac']], n['lvl'], nl(n['ins']))
+        for n in g['nodes'])
+    fb = '; '.join('(%d, %d)' % (a, c) for a, c in g['fb'])
+    tg = nl(range(1, len(g['tnames'])))
+    return '{| gnodes := [%s]; gfb := [%s]; gtargets := %s |}' % (nodes, fb, tg)
+
+
+def ev_term(e):
+    k = e[0]
+    if k == 'org':
+        return '(Org %s %s %s)' % (nl(e[1]), zopt(e[2]), nl(e[3]))
+    if k == 'tick':
+        return 'Tick'
+    if k == 'rep':
+        _, w, x, t, rid, oc, vals = e
+        vs = '; '.join('(%d, %d, %s)' % (vt, vn, b(isn)) for vt, vn, isn in vals)
+        return '(Rep %d %d %d (%d)%%Z %s [%s])' % (w, x, t, rid, OUTC[oc], vs)
+    if k == 'reg':
+        return '(Reg %d %d %s)' % (e[1], e[2], b(e[3]))
+    if k == 'poll':
+        return '(Poll %d %s)' % (e[1], b(e[2]))
+    if k == 'drop':
+        return '(Drop %d)' % e[1]
+    if k == 'act':
+        return '(Act %s)' % b(e[1])
+    if k == 'pause':
+        return '(Pause %s)' % b(e[1])
+    if k == 'stored':
+        return '(Stored (%d)%%Z)' % e[1]
+    if k == 'buildch':
+        return '(Build %s)' % nl(e[1])
+    raise ValueError(k)
+
+
+def canon_impl(o):
+    return {
+        'que': o['que'],
+        'nodes': [[n[0], n[1], n[2], n[3], n[4]] for n in o['nodes']],
+        'jobs': o['jobs'], 'cluster': o['cluster'], 'busy': o['busy'],
+        'workers': o['workers'], 'flags': o['flags'], 'outs': o['outs'],
+    }
+
+
+def canon_model(t):
+    que, nodes, jobs, cluster, busy, workers, flags, outs, inflight = t
+    ns = []
+    for todo, doing, do, st, rid in nodes:
+        ns.append([sorted(todo), sorted(doing), sorted(do), st,
+                   None if rid is None else rid[1]])
+    return {
+        'que': que, 'nodes': ns, 'jobs': jobs, 'cluster': cluster,
+        'busy': sorted(busy), 'workers': workers, 'flags': list(flags),
+        'outs': outs,
+    }
+
+
+def model_traces(ctx, results):
+    '''evaluate obs_trace for every case; returns list of list of canon dicts'''
+    exprs = []
+    for r in results:
+        evs = '[' + '; '.join(ev_term(e) for e in r['events']) + ']'
+        exprs.append('obs_trace %s %s' % (cfg_term(r['graph']), evs))
+    vals = ctx.coq_eval(['DV.Model.Sched', 'DV.Model.SchedObs'], exprs, z_scope=False, chunk=40)
+    return [[canon_model(t) for t in v] for v in vals]
+
+
+def first_mismatch(impl_obs, model_obs):
+    for i, (a, m) in enumerate(zip(impl_obs, model_obs)):
+        ca = canon_impl(a)
+        if ca != m:
+            keys = [k for k in ca if ca[k] != m[k]]
+            return i, keys, {k: ca[k] for k in keys}, {k: m[k] for k in keys}
+    if len(impl_obs) != len(model_obs):
+        return min(len(impl_obs), len(model_obs)), ['length'], {}, {}
+    return None
+
+
+def fingerprints(ctx):
+    fp = {}
+    for path, names in FINGERPRINT:
+        for k, v in core.fingerprint(path, names).items():
+            fp['%s:%s' % (path.split('/')[-1], k)] = v
+    ctx.note('fingerprints', fp)
+    try:
+        ref = json.load(open(core.VERIF + '/corpus/sched_fingerprints.json'))
+    except OSError:
+        ref = fp
+    changed = sorted(k for k in fp if ref.get(k) != fp[k])
+    ctx.note('fingerprints_changed', changed)
+    return changed
+
+
+def wf_graph(g):
+    '''the hypothesis of the scheduler theorems, checked on the graph the REAL
+    Construct produced: anc(y) = strict ancestors by kids; kids acyclic.'''
+    n = len(g['nodes'])
+    parents = {i: set() for i in range(n)}
+    for i, nd in enumerate(g['nodes']):
+        for k in nd['kids']:
+            parents[k].add(i)
+    anc = {}
+
+    def up(i, stack=()):
+        if i in anc:
+            return anc[i]
+        if i in stack:
+            return None
+        s = set()
+        for p in parents[i]:
+            u = up(p, stack + (i,))
+            if u is None:
+                return None
+            s |= {p} | u
+        anc[i] = s
+        return s
+
+    for i in range(n):
+        u = up(i)
+        if u is None or i in u:
+            return False, 'cycle at %d' % i
+        if u != set(g['nodes'][i]['anc']):
+            return False, 'ancestry of %d is %s, closure of kids is %s' % (
+                i, sorted(g['nodes'][i]['anc']), sorted(u))
+    return True, ''
+
+
+def run_corr(ctx, cases, oracle=None, label='sched'):
+    '''Run the cases on the implementation and on the model, compare, run the
+    oracle (callable(case_result) -> list of (kind, fields, what, step)).
+    Returns (results, nmismatch).'''
+    out = ctx.harness('drive_sched.py', {'cases': cases})
+    results = out['cases']
+    for c, r in zip(cases, results):
+        r['seed'] = c.get('seed')
+    traces = model_traces(ctx, results)
+    nmis = 0
+    for r, tr in zip(results, traces):
+        ok, why = wf_graph(r['graph'])
+        if not ok:
+            ctx.broken('hypothesis wf_graph fails on the graph built by dag.Construct',
+                       why, {'source': 'correspondence', 'case': strip(r)})
+        mm = first_mismatch(r['obs'], tr)
+        r['mismatch'] = mm
+        if mm:
+            nmis += 1
+        if oracle:
+            for kind, fields, what, step in oracle(r):
+                ctx.violation(kind, fields, what,
+                              {'source': 'oracle', 'step': step, 'case': strip(r, step)})
+    return results, nmis
+
+
+def strip(r, upto=None):
+    ev = r['events'] if upto is None else r['events'][:upto + 1]
+    return {'seed': r.get('seed'), 'desc': r['desc'], 'events': ev,
+            'targets': r['graph']['tnames'][1:], 'tags': r['graph']['tags']}
+
+
+def report_mismatches(ctx, results, what):
+    '''a correspondence mismatch that no oracle explained -> broken'''
+    for r in results:
+        mm = r.get('mismatch')
+        if mm:
+            i, keys, a, m = mm
+            ctx.broken(
+                'correspondence %s: model Sched.v and implementation disagree' % what,
+                'case seed=%s step=%d event=%s differing=%s\nimpl=%s\nmodel=%s'
+                % (r.get('seed'), i, r['events'][i] if i < len(r['events']) else None,
+                   keys, json.dumps(a)[:1500], json.dumps(m)[:1500]),
+                {'source': 'correspondence', 'step': i, 'case': strip(r, i),
+                 'impl': a, 'model': m})
+            return True
+    return False
+
+
+# ---------------------------------------------------------------------------
+# C15 build half (wired later)
+# ---------------------------------------------------------------------------
 
 
 def c15_build(ctx):
